@@ -29,6 +29,7 @@ import Midgard.Proofs.GeoReal
 import Midgard.Proofs.GeoAccuracy
 import Midgard.Proofs.GeoThirdOrder
 import Midgard.Proofs.GeoBoundFinal
+import Midgard.Proofs.GeoFarFinal
 import Midgard.Proofs.SourceTie
 import Midgard.Model.Geodetic
 import Midgard.Model.Rotation
@@ -567,15 +568,15 @@ theorem roundtrip_lon_exact (E : Ellipsoid ℝ) (ha : 0 < E.a) (hf0 : 0 ≤ E.f)
     (trs2llh E (llh2trs E g)).lon = g.lon :=
   roundtrip_lon E ha hf0 hf1 g hlon hcos hh
 
-/-- PARTIAL (accuracy off the surface).  Proved: the round-trip error of the one-step scheme *in closed form* —
+/-- The round-trip error of the one-step scheme *in closed form* (the numeric bounds on `R` are `near_surface_accuracy`
+and `far_field_accuracy` below) —
 `llh2trs (trs2llh v) − v` is the vector `(x·k, y·k, −c)` whose length is exactly `|R|`,
 `R = tangentialOffset E p z = (z·cc − p·s1)/D + e²·a·s1·cc/(D·W)` with `(s1, cc) = halley E p z`, `D = √(s1²+cc²)`,
 `W = √((1−e²)s1²+cc²)`: the longitude and the height formula contribute no error at all, the whole error is the
 tangential offset caused by the latitude error of the single Halley step.
-Full statement (NOT proved, measured by harness/c05.py against mpmath): `|R| < 1e-6` m for `|h| ≤ 100 km` and
-`|R| < 2e-3` m up to 50 000 km on every ellipsoid with `e² ≤ 0.0067`; it is now a scalar inequality in the two
-variables `(p, z)` over an explicit region. -/
-theorem roundtrip_error_partial (E : Ellipsoid ℝ) (hE : Mild E) (v : V3 ℝ)
+The bounds `|R| < 1e-6` m for `|h| ≤ 100 km` and `|R| < 2e-3` m up to 50 000 km are the theorems `near_surface_accuracy` and
+`far_field_accuracy`. -/
+theorem roundtrip_error_closed_form (E : Ellipsoid ℝ) (hE : Mild E) (v : V3 ℝ)
     (hoff : ¬ v.x * v.x + v.y * v.y ≤ E.a * E.a * 1e-32) (hz : 0 < v.z)
     (hdeep : (E.e2 * (1 - E.f) * E.a) ^ 2 < (1 - E.f) ^ 2 * (v.x * v.x + v.y * v.y) + v.z * v.z) :
     ∃ k : ℝ, ∃ c : ℝ,
@@ -583,9 +584,9 @@ theorem roundtrip_error_partial (E : Ellipsoid ℝ) (hE : Mild E) (v : V3 ℝ)
       (v.x * k) ^ 2 + (v.y * k) ^ 2 + c ^ 2 = (tangentialOffset E (Real.sqrt (v.x * v.x + v.y * v.y)) v.z) ^ 2 :=
   roundtrip_residual E hE v hoff hz hdeep
 
-/-- the southern half space (`z < 0`), by `trs2llh_reflect_z`: the mirror image of `roundtrip_error_partial` — same `R`
+/-- the southern half space (`z < 0`), by `trs2llh_reflect_z`: the mirror image of `roundtrip_error_closed_form` — same `R`
 (evaluated at `|z| = −z`), `z` component `v.z + c` -/
-theorem roundtrip_error_south_partial (E : Ellipsoid ℝ) (hE : Mild E) (v : V3 ℝ)
+theorem roundtrip_error_south (E : Ellipsoid ℝ) (hE : Mild E) (v : V3 ℝ)
     (hoff : ¬ v.x * v.x + v.y * v.y ≤ E.a * E.a * 1e-32) (hz : v.z < 0)
     (hdeep : (E.e2 * (1 - E.f) * E.a) ^ 2 < (1 - E.f) ^ 2 * (v.x * v.x + v.y * v.y) + v.z * v.z) :
     ∃ k : ℝ, ∃ c : ℝ,
@@ -612,24 +613,23 @@ theorem offset_zero_at_true_latitude (E : Ellipsoid ℝ) (he0 : 0 ≤ E.e2) (he1
     offsetAt E ((N + h) * c) ((N * (1 - E.e2) + h) * s) (k * s) (k * c) = 0 :=
   offsetAt_true_latitude E he0 he1 s c h k hsc hk
 
-/-- PARTIAL (the bound for the start value): the start value `T₀ = s0/c0` of the scheme at the point with geodetic
+/-- The start value: the start value `T₀ = s0/c0` of the scheme at the point with geodetic
 `(φ, h)` differs from the exact tangent of the reduced latitude by exactly `e²·h·tan φ / (q·(N + h))`.
-Full statement (NOT proved): one Halley step from `T₀` leaves a latitude error `≤ K·(T₀ − T*)³` with an explicit `K`,
-whence `|R| < 1e-6 m` for `|h| ≤ 100 km` and `< 2e-3 m` up to 50 000 km (measured: 6.5e-9 m and 1.1e-3 m — the second
-figure leaves a factor 2 only). -/
-theorem start_value_error_partial (a q N h s c : ℝ) (ha : a ≠ 0) (hq : q ≠ 0) (hc : c ≠ 0) (hNh : N + h ≠ 0) :
+(The cubic convergence of the single Halley step from this start value is made explicit by `halley_third_order`; the
+resulting numeric bounds are `near_surface_accuracy` and `far_field_accuracy`.) -/
+theorem start_value_error_exact (a q N h s c : ℝ) (ha : a ≠ 0) (hq : q ≠ 0) (hc : c ≠ 0) (hNh : N + h ≠ 0) :
     ((N * q ^ 2 + h) * s / a) / (q * ((N + h) * c / a)) - q * (s / c) = (1 - q ^ 2) * h * s / (q * (N + h) * c) :=
   start_value_error a q N h s c ha hq hc hNh
 
-/-- PARTIAL (the Halley / third-order property, explicit).  With `P = p/a`, `S = |z|/a`, `q = √(1−e²)`,
+/-- The Halley / third-order property, explicit.  With `P = p/a`, `S = |z|/a`, `q = √(1−e²)`,
 `A = √(q²P² + S²)` (`A = q` exactly on the ellipsoid), `(s1, cc) = halley E p z`, `M = P·s1 − S·cc`, `W² = q²s1² + cc²`:
 `(e²·s1·cc)² − M²·W² = −e¹⁰·P⁸·S⁴·(A − q)³·H(A, P, q)/16` with an explicit polynomial `H` (`Proofs/GeoThirdOrder.lean`,
 cofactors found with sympy, checked by `ring`).  Since `R·D·W·(e²·s1·cc + M·W) = a·((e²·s1·cc)² − M²·W²)`
 (definition of `tangentialOffset`, `W = √(…)`), the round-trip error `|R|` carries the factor `e¹⁰·(A − q)³`: it vanishes
 to third order in the height-like quantity `A − q` and to high order in the eccentricity.
-Full statement (NOT proved): the numerical bound `|R| < 1e-6 m` (`|h| ≤ 100 km`) / `< 2e-3 m` (50 000 km) — needs an upper
-bound of `|H|` and lower bounds of `D·W·(e²s1cc + MW)` over the region (measured: 6.5e-9 m / 1.1e-3 m). -/
-theorem halley_third_order_partial (E : Ellipsoid ℝ) (he1 : E.e2 ≤ 1) (p z : ℝ) :
+The numerical bounds derived from it: `near_surface_accuracy` (`< 1e-6 m`, `|h| ≤ 100 km`) and `far_field_accuracy`
+(`< 2e-3 m`, up to 50 000 km); measured 6.5e-9 m / 1.1e-3 m. -/
+theorem halley_third_order (E : Ellipsoid ℝ) (he1 : E.e2 ≤ 1) (p z : ℝ) :
     let q := Real.sqrt (1 - E.e2)
     let P := p / E.a
     let S := z / E.a
@@ -665,9 +665,9 @@ theorem registered_ellipsoids_in_range :
 `0 ≤ e² ≤ 0.0067` (all registered ones: `registered_ellipsoids_in_range`), every geodetic latitude with
 `s = sin φ ≥ 0`, `c = cos φ > 0` and every height `|h| ≤ 100 km`, the tangential offset `R` of the one-step algorithm at
 the point `p = (N + h)c`, `z = (N(1 − e²) + h)s` is below `1e-6 m` — and `|R|` *is* the distance between
-`llh2trs (trs2llh v)` and `v` (`roundtrip_error_partial`; southern hemisphere by `roundtrip_error_south_partial`, the
+`llh2trs (trs2llh v)` and `v` (`roundtrip_error_closed_form`; southern hemisphere by `roundtrip_error_south`, the
 equatorial plane and the pole branch are exact).  Exact real arithmetic; IEEE rounding stays measured.
-Still NOT proved: the far clause (`< 2 mm` up to 50 000 km; measured 1.1 mm). -/
+The far clause is `far_field_accuracy`. -/
 theorem near_surface_accuracy (E : Ellipsoid ℝ) (ha : 6371000 ≤ E.a) (ha' : E.a ≤ 6378140) (he0 : 0 ≤ E.e2)
     (he : E.e2 ≤ 0.0067) (s c h : ℝ) (hsc : s ^ 2 + c ^ 2 = 1) (hc : 0 < c) (hs : 0 ≤ s) (hh : |h| ≤ 100000) :
     |tangentialOffset E ((E.a / Real.sqrt (1 - E.e2 * s ^ 2) + h) * c)
@@ -681,6 +681,27 @@ theorem near_surface_accuracy_box (E : Ellipsoid ℝ) (ha : 0 < E.a) (ha' : E.a 
               - Real.sqrt (1 - E.e2)| ≤ 0.0162) :
     |tangentialOffset E p z| < 1e-6 :=
   tangentialOffset_near E ha ha' he0 he p z hp hz hnear
+
+/-- **the accuracy clause far from the surface, proved**: for every ellipsoid with `6 371 000 ≤ a ≤ 6 378 140 m`,
+`0 ≤ e² ≤ 0.0067` (all registered ones), every latitude with `s = sin φ ≥ 0`, `c = cos φ > 0` and every height
+`0 ≤ h ≤ 50 000 km` the tangential offset `R` — the round-trip error of the one-step algorithm in exact arithmetic
+(`roundtrip_error_closed_form`) — is below `2 mm`.  (Heights `−100 km ≤ h < 0` are in `near_surface_accuracy`.)
+Chain: third-order identity → `offset_core2` (Cauchy–Schwarz lower bound of `D·W`) → cofactor bounds in the scaled
+variables `x = 1/A`, `t = P/A` on two altitude boxes (`A ∈ [1.0128, 4]`, `[4, 8.86]`) → a one-dimensional inequality in
+`t` closed on 10 + 18 sub-intervals by `norm_num` (Proofs/GeoFar*.lean, generated with sympy). -/
+theorem far_field_accuracy (E : Ellipsoid ℝ) (ha : 6371000 ≤ E.a) (ha' : E.a ≤ 6378140) (he0 : 0 ≤ E.e2)
+    (he : E.e2 ≤ 0.0067) (s c h : ℝ) (hsc : s ^ 2 + c ^ 2 = 1) (hc : 0 < c) (hs : 0 ≤ s) (hh0 : 0 ≤ h) (hh1 : h ≤ 50000000) :
+    |tangentialOffset E ((E.a / Real.sqrt (1 - E.e2 * s ^ 2) + h) * c)
+        ((E.a / Real.sqrt (1 - E.e2 * s ^ 2) * (1 - E.e2) + h) * s)| < 2e-3 :=
+  tangentialOffset_nonneg_height E ha ha' he0 he s c h hsc hc hs hh0 hh1
+
+/-- the same in the scheme's normalised quantities: `1.0128 ≤ A ≤ 8.86` -/
+theorem far_field_accuracy_box (E : Ellipsoid ℝ) (ha : 0 < E.a) (ha' : E.a ≤ 6378140) (he0 : 0 ≤ E.e2) (he : E.e2 ≤ 0.0067)
+    (p z : ℝ) (hp : 0 < p) (hz : 0 ≤ z)
+    (hAlo : 1.0128 ≤ Real.sqrt (Real.sqrt (1 - E.e2) * (p / E.a) * (Real.sqrt (1 - E.e2) * (p / E.a)) + z / E.a * (z / E.a)))
+    (hAhi : Real.sqrt (Real.sqrt (1 - E.e2) * (p / E.a) * (Real.sqrt (1 - E.e2) * (p / E.a)) + z / E.a * (z / E.a)) ≤ 8.86) :
+    |tangentialOffset E p z| < 2e-3 :=
+  tangentialOffset_far E ha ha' he0 he p z hp hz hAlo hAhi
 
 /-- the hypotheses are satisfiable (GRS80-like numbers, φ = 0.6435…: s = 3/5, c = 4/5, h = 50 km) -/
 example : ((3:ℝ) / 5) ^ 2 + (4 / 5) ^ 2 = 1 ∧ |(50000 : ℝ)| ≤ 100000 := by
@@ -1026,17 +1047,19 @@ end Midgard.Props.C05
 #print axioms Midgard.Props.C05.equator_exact
 #print axioms Midgard.Props.C05.meridian180_exact
 #print axioms Midgard.Props.C05.roundtrip_lon_exact
-#print axioms Midgard.Props.C05.roundtrip_error_partial
+#print axioms Midgard.Props.C05.roundtrip_error_closed_form
 #print axioms Midgard.Props.C05.external_sites_forward
-#print axioms Midgard.Props.C05.roundtrip_error_south_partial
+#print axioms Midgard.Props.C05.roundtrip_error_south
 #print axioms Midgard.Props.C05.equator_roundtrip_exact
 #print axioms Midgard.Props.C05.tangentialOffset_is_model
 #print axioms Midgard.Props.C05.offset_zero_at_true_latitude
-#print axioms Midgard.Props.C05.start_value_error_partial
+#print axioms Midgard.Props.C05.start_value_error_exact
 #print axioms Midgard.Props.C05.source_branch_selection
 #print axioms Midgard.Props.C05.delta_empty_from_forwards
-#print axioms Midgard.Props.C05.halley_third_order_partial
+#print axioms Midgard.Props.C05.halley_third_order
 #print axioms Midgard.Props.C05.explicit_ellipsoid_decides
 #print axioms Midgard.Props.C05.registered_ellipsoids_in_range
 #print axioms Midgard.Props.C05.near_surface_accuracy
 #print axioms Midgard.Props.C05.near_surface_accuracy_box
+#print axioms Midgard.Props.C05.far_field_accuracy
+#print axioms Midgard.Props.C05.far_field_accuracy_box
